@@ -188,6 +188,11 @@ func exShape(base string, g *exGraph, abs bool, at ...string) string {
 			ks = "via:" + w
 		}
 	}
+	if ks == "" && exLayoutPrefixSibling(g) {
+		// an element handed to a single-element entry point may reach documents the (shrunk) root no longer refers to: the
+		// layout alone - one document's location continuing another's as a string - is what finding F9 needs
+		ks = "via:prefix-sibling-doc"
+	}
 	if g.hasTag("id") {
 		ks = "id" // an `id` registers a pseudo document for the whole run
 	}
@@ -198,6 +203,27 @@ func exShape(base string, g *exGraph, abs bool, at ...string) string {
 		return base
 	}
 	return base + ":" + ks
+}
+
+// exLayoutPrefixSibling: two documents of the graph on one host such that the path of one is a string prefix of the other's.
+func exLayoutPrefixSibling(g *exGraph) bool {
+	docs := g.docList()
+	for _, a := range docs {
+		ua, err := url.Parse(a)
+		if err != nil {
+			continue
+		}
+		for _, b := range docs {
+			ub, err := url.Parse(b)
+			if a == b || err != nil || ua.Scheme != ub.Scheme || ua.Host != ub.Host {
+				continue
+			}
+			if strings.HasPrefix(ub.Path, ua.Path) {
+				return true
+			}
+		}
+	}
+	return false
 }
 
 // ---------------------------------------------------------------------------------------------
@@ -1140,8 +1166,8 @@ func exC10Variants(r *rng, g *exGraph) []*exInput {
 	var out []*exInput
 	for _, ec := range exElementCases(g) {
 		for _, entry := range exEntries {
-			if !exEntryApplies(ec.Op, entry) {
-				continue
+			if !exEntryApplies(ec.Op, entry) || (g.Root == exPseudoRoot && entry == "base_path") {
+				continue // a root without a location cannot be named by a base path
 			}
 			in := exInputOf(g)
 			in.Op, in.Element, in.Entry, in.Pointer = ec.Op, ec.Element, entry, ec.Pointer
